@@ -23,7 +23,7 @@ CHECKS = {
  "C06": ("exploration", "property-based testing and bounded-exhaustive enumeration with a metamorphic resynchronisation relation (records(A+nl+B) = records(A)++records(B)), totality invariants, and agreement of every iterator adaptor and of section()/clone() with plain iteration; inputs beyond 2^31 and 2^32 bytes; libFuzzer stage in thorough",
    "Generated-input search over byte strings, token soups, hostile mutants, corpus cuts and all short strings over a 9-symbol alphabet; thorough adds a coverage-guided libFuzzer campaign with the same oracle in-target.",
    "Phantom error items for blank trailing input are normalised away (documented in DESIGN.md).", "DESIGN.md §4 C06"),
- "C07": ("exploration", "property-based testing (proptest): per-line model composed from the public single-line API, reference-model expectation for AST-kinded texts, conservation and identity relations, mapper==cache; correlated lines (the same frame repeated in other spellings); libFuzzer stage in thorough (text fuzzed against the composition oracle)",
+ "C07": ("exploration", "property-based testing (proptest): per-line model composed from the public single-element API with line shapes decided by the harness's own recognisers (not the crate's parser), near misses of the frame shape derived from resolving frames, reference-model expectation for AST-kinded texts, conservation and identity relations, mapper==cache; correlated lines (the same frame repeated in other spellings); libFuzzer stage in thorough (text fuzzed against the composition oracle)",
    "Generated-input search over mappings x decorated trace texts; output must equal the per-line rule of the statement.",
    "Single-line parsers/printers are trusted here and covered by C17/C01.", "DESIGN.md §4 C07"),
  "C08": ("exploration", "property-based testing (proptest): structural preservation oracle built from single-element lookups, typed<->text agreement on canonical traces",
@@ -38,7 +38,7 @@ CHECKS = {
  "C11": ("fault_enumeration", "fault enumeration over generated caches: every strict prefix (also at a 4-aligned address), every single-field header edit and bit flip, magic/version edits at a 4-aligned address and on buffers cut right behind the header, foreign headers; expected error kind from the independent layout model",
    "Per generated cache the fault space (all prefixes, all listed header edits) is enumerated completely; files are generated with proptest.",
    "Complete per file, not over all files. Buffers 8-byte aligned.", "DESIGN.md §4 C11"),
- "C12": ("exploration", "property-based testing (proptest) with structured corruption operators on valid caches (small, tall, and 4096+-class caches), panic/overflow detection, pointer-range oracle and a placement-independence relation (same buffer surrounded by different bytes => same answers); deep queries in a child process; libFuzzer stage in thorough (AddressSanitizer build over exact-size buffer allocations: a reproducing sanitizer report is a violation even when every answer is unchanged)",
+ "C12": ("exploration", "property-based testing (proptest) with structured corruption operators on valid caches (small, tall, and 4096+-class caches), panic/overflow detection, pointer-range oracle and a placement-independence relation (same buffer surrounded by different bytes => same answers); every image also offered at addresses 1..7 mod 8; deep queries in a child process; libFuzzer stage in thorough (AddressSanitizer build over exact-size buffer allocations: a reproducing sanitizer report is a violation even when every answer is unchanged)",
    "Generated-input search over corrupted buffers x the query universe; thorough adds exhaustive (field,value) edits of small files and a coverage-guided libFuzzer campaign with the oracle in-target.",
    "Overflow is observable because the harness builds the crate with overflow-checks. test()/display()/debug_* helpers excluded.", "DESIGN.md §4 C12"),
  "C13": ("exploration", "property-based testing (proptest) / fuzzing of the whole pipeline with hostile numbers, mutants, raw bytes, scale mappings and every mapper constructor; no-panic/no-error oracle; deep inputs answered in a child process so that a stack overflow (an abort, not a panic) is attributed; libFuzzer stage in thorough",
@@ -62,7 +62,7 @@ CHECKS = {
  "C19": ("exploration", "property-based testing (proptest) with truth computed from the generated line list and the fold over the public record iterator; fold-only stage for mid-line records and grey-zone values; evidence behind 65536 lines / 65 MiB; metadata headers 17 / 33 MiB apart; section() after the parent was queried",
    "Generated-input search over files whose deciding record is placed adversarially (after 49/50/51/1000/10000 negatives, last line without terminator).",
    "min_api values with a leading '+' are not generated.", "DESIGN.md §4 C19"),
- "C20": ("exploration", "compile-time Send+Sync assertions (type list enumerated) plus randomized multi-thread stress on cold instances compared with a separately computed single-threaded transcript; lockstep first use (all threads issue the same query at the same moment on a fresh instance); shared ProguardMapping (incl. sections) and shared result objects; scale mappings under stress; 6.4e7 distinct keys on one shared mapper + cache against a descriptor model",
+ "C20": ("exploration", "compile-time Send+Sync assertions (type list enumerated) plus randomized multi-thread stress on cold instances compared with a separately computed single-threaded transcript; lockstep first use (all threads issue the same query at the same moment on a fresh instance); shared ProguardMapping (incl. sections) and shared result objects, incl. fresh result objects whose first read happens in lockstep; 1200-level typed traces remapped by 4/16 threads at the same moment (per-call state must be per call); scale mappings under stress; 6.4e7 distinct keys on one shared mapper + cache against a descriptor model",
    "Static part decides the realistic regressions (non-Send/Sync fields fail to compile); dynamic part is stress exploration with real threads over generated mappings.",
    "The harness does not own the schedule; interleavings are sampled, not enumerated.", "DESIGN.md §4 C20"),
 }
